@@ -366,3 +366,70 @@ def gitignore_variant():
                          "forall(0, idx, lambda k: git_rc(k) != 128)", f"idx_n == {NF}"],
            types={"target": "opaque", "exit_code": "int", "command": "opaque"}, pure=True)
     return c
+
+
+# ------------------------------------------------------------------------------ File.source (C16)
+DISK = z3.Function("disk_content", S, S)      # what open(path).read() returns: an uninterpreted function of the path
+
+
+def install_disk(E):
+    """`with open(p) as f: ... f.read()`: the file object answers read() with disk_content(p);
+    opening may fail with OSError.  Nothing else of the file API is modelled."""
+    from ..pyvc.builtins_ import method
+
+    def m_with(E_, stmt, st):
+        if len(stmt.items) != 1:
+            raise Unsupported("with statement with several items")
+        it = stmt.items[0]
+        ce = it.context_expr
+        if not (isinstance(ce, ast.Call) and isinstance(ce.func, ast.Name) and ce.func.id == "open"
+                and len(ce.args) == 1 and not ce.keywords and isinstance(it.optional_vars, ast.Name)):
+            raise Unsupported("with statement other than `with open(path) as name`")
+        out = []
+        for s1, p in E_.ev(ce.args[0], st):
+            if isinstance(p, Raised):
+                out.append((s1, ("raise", p.exc)))
+                continue
+            if not isinstance(p, (SStr, str)):
+                raise Unsupported("open() of a path that is not a string")
+            s_err = s1.fork()
+            out.append((s_err, ("raise", ExcVal("OSError", ("open",)))))
+            fobj = s1.alloc(ObjCell("DiskFile", {"path": p}))
+            s1.locals[it.optional_vars.id] = fobj
+            out.extend(E_.exec_block(stmt.body, s1))
+        return out
+    E.models["with"] = m_with
+
+    def disk_attr(E_, s, v, attr):
+        if attr == "read":
+            p = s.cell(v).attrs["path"]
+            t = p.t if isinstance(p, SStr) else z3.StringVal(p)
+            return [(s, method("file.read", lambda E2, s2, a, k: [(s2, SStr(DISK(t)))]))]
+        return None
+    E.attr_models["DiskFile"] = disk_attr
+
+    def sp_disk(E_, s, args, kw):
+        p = args[0]
+        return [(s, SStr(DISK(p.t if isinstance(p, SStr) else z3.StringVal(p))))]
+    E.spec_builtins["disk"] = Builtin("disk", sp_disk)
+
+
+def file_source_contract():
+    """File.source: the content handed over at construction when there is one (--cfile /
+    --hfile), else exactly what is stored under the path -- no transformation on either side"""
+    def setup(E, st):
+        cls = E.repo.find_class("norminette/file.py", "File")
+        attrs = {"path": SStr(z3.String(fresh_name("path"))),
+                 "_source": SOpt(z3.Bool(fresh_name("source_none")), SStr(z3.String(fresh_name("source")))),
+                 "errors": Opaque("errors"), "basename": Opaque("basename"), "name": Opaque("name"),
+                 "type": Opaque("type")}
+        return {"self": st.alloc(ObjCell(cls, attrs))}
+    c = Contract("norminette/file.py:File.source", setup=setup, result="str")
+    c.rais("OSError", only_if="isnone(old(self._source))")
+    c.modifies = ["self._source:optstr"]
+    c.ens("implies(not isnone(old(self._source)), result == old(self._source))", "inline_content_is_returned_as_given")
+    c.ens("implies(isnone(old(self._source)), result == disk(self.path))", "stored_content_is_returned_as_read")
+    c.ens("not isnone(self._source) and self._source == result", "cached")
+    c.mustfail("result == disk(self.path)", "always_reads_the_disk")
+    c.check_frame = True
+    return c
